@@ -547,3 +547,25 @@ M('C20', 'interior-bary-swapped-weights', UVM, "    Some([1.0 - w1 - w2, w1, w2]
 M('C20', 'interior-bary-wrong-numerator', UVM, "    let w2 = (v0.x * v2.y - v2.x * v0.y) / det;", "    let w2 = (v0.x * v2.y - v2.y * v0.x) / det;", 'interior_barycentric')
 M('C20', 'interior-bary-other-triangle', UVM, "                let tri = self.tri_map.triangle(t_id);", "                let tri = self.tri_map.triangle(0);", 'UvMapping::triangle')
 M('C20', 'neutral-interior-bary-w0-order', UVM, "    Some([1.0 - w1 - w2, w1, w2])", "    let w0 = 1.0 - (w1 + w2);\n    Some([w0, w1, w2])", '', kind='neutral')
+# ---------------------------------------------------------------- renamed parameters / locals (behaviour preserving)
+import re as _re
+def _rename_in_fn(path, start_marker, end_marker, renames):
+    src = open('/repo/' + path).read()
+    i = src.index(start_marker)
+    j = src.index(end_marker, i + 10)
+    body = src[i:j]
+    new = body
+    for a, b_ in renames:
+        new = _re.sub(r'\b%s\b' % a, b_, new)
+    return body, new
+try:
+    _o, _n = _rename_in_fn('src/geom2/curve2.rs', '    pub fn between_lengths(&self', '\n    pub fn ', [('l0', 'from_len'), ('l1', 'to_len'), ('working', 'station'), ('wrap', 'goes_around'), ('last_index', 'final_vertex')])
+    M('C04', 'neutral-rename-params-and-locals', 'src/geom2/curve2.rs', _o, _n, '', kind='neutral')
+    _o, _n = _rename_in_fn('src/func1/polynomial.rs', '    pub fn least_squares(', '\n    }\n}', [('sums', 'moments'), ('rhs', 'b_vec'), ('matrix', 'hankel'), ('xs', 'abscissae')])
+    M('C09', 'neutral-rename-least-squares', 'src/func1/polynomial.rs', _o, _n, '', kind='neutral')
+    _o, _n = _rename_in_fn('src/common/indices.rs', 'pub fn chained_indices(', '\n}\n', [('pairs', 'remaining'), ('working', 'chain'), ('forward', 'at_tail')])
+    M('C13', 'neutral-rename-chained-indices', 'src/common/indices.rs', _o, _n, '', kind='neutral')
+    _o, _n = _rename_in_fn('src/geom3/mesh/conformal.rs', 'fn cotan_laplacian_triplets(', '\n}\n', [('values', 'edge_weights'), ('diagonals', 'vertex_sums'), ('cotans', 'cot')])
+    M('C20', 'neutral-rename-cotan', 'src/geom3/mesh/conformal.rs', _o, _n, '', kind='neutral')
+except Exception as _ex:      # the anchor text moved: the drill reports BROKEN-MUTANT for the entries above instead
+    pass
